@@ -13,6 +13,7 @@ from harness import observe, registry, runner  # noqa: E402
 from checks import c06  # noqa: E402
 
 N = int(os.environ.get("PAIR_BASELINE_N", "40"))
+N_POOL = int(os.environ.get("PAIR_BASELINE_N_POOL", "10"))
 
 
 def one(name):
@@ -32,7 +33,14 @@ def one(name):
         for r in res:
             if not r[0]:
                 fails[r[1]] = fails.get(r[1], 0) + 1
-        out[f"{name}|{enc}"] = {"ok": ok, "n": len(res), "rate": round(ok / max(1, len(res)), 3), "failures": fails}
+        entry = {"ok": ok, "n": len(res), "rate": round(ok / max(1, len(res)), 3), "failures": fails}
+        for mode in ("thread", "process"):
+            res = []
+            runner.drive(ctx, c06.pair_strategy(name, enc, mode), case, N_POOL,
+                         runner.mix_seed("baseline", 20261003, enc, mode), shrink=False, max_rounds=1)
+            okm = sum(1 for r in res if r[0])
+            entry[mode] = {"ok": okm, "n": len(res), "rate": round(okm / max(1, len(res)), 3)}
+        out[f"{name}|{enc}"] = entry
     return out
 
 
